@@ -383,9 +383,9 @@ pub fn expiry_case(case: &SearchCase, kmax: u64, deep: &[u64], mode: Mode, st: &
     if ratio > 3.0 {
         st.label("expiry_bound_scaled_down_for_heavy_quiescence");
     }
-    // C18 rides on C07's prefix law: every k up to 300 (where a leaked sentinel would show), then
-    // every fifth
-    let stride_from = if mode == Mode::C18 { 300 } else { u64::MAX };
+    // C18 examines the lines of EVERY expiry point too (a malformed line can belong to a single k,
+    // e.g. the one consultation on entry of a null-move probe)
+    let stride_from = u64::MAX;
     let ks: Vec<u64> = (0..=kmax.min(reference.queries)).filter(|&k| k <= stride_from || k % 5 == 0).chain(deep.iter().cloned().filter(|&k| k > kmax && k < reference.queries)).collect();
     let mut sorted = ks.clone();
     sorted.sort();
@@ -450,7 +450,7 @@ pub fn run_expiry(ctx: &mut Ctx, mode: Mode) {
     let kmax: u64 = t.pick(1500, 5000);
     let deep_n = t.pick(4usize, 40usize);
     let deep_max = t.pick(20_000u32, 60_000u32);
-    let cases = t.pick(256, 768);
+    let cases = if mode == Mode::C18 { t.pick(160, 512) } else { t.pick(256, 768) };
     // twice as many runners as cores: the cost per case is heavy-tailed
     let saved_workers = ctx.workers;
     ctx.workers = saved_workers * 2;
